@@ -441,6 +441,24 @@ impl<'a> Searcher<'a> {
                         items.push((field_name, record));
                     }
 
+                    // ordering keys that are not displayed are computed as well, behind the displayed columns
+                    for ordering_expr in self.query.ordering_fields.clone().iter() {
+                        let field_name = ordering_expr.to_string().to_lowercase();
+                        if !items.iter().any(|item| item.0 == field_name) {
+                            let record = format!(
+                                "{}",
+                                self.get_column_expr_value(
+                                    None,
+                                    &None,
+                                    &mut file_map,
+                                    Some(f.1),
+                                    ordering_expr
+                                )
+                            );
+                            items.push((field_name, record));
+                        }
+                    }
+
                     results.push(items);
                 });
 
@@ -455,11 +473,9 @@ impl<'a> Searcher<'a> {
                     let sorting_indices = ordering_fields
                         .iter()
                         .map(|f| {
-                            self.query
-                                .fields
-                                .iter()
-                                .map(|f| f.to_string().to_lowercase())
-                                .position(|g| &g == f)
+                            results
+                                .first()
+                                .and_then(|row| row.iter().position(|item| &item.0 == f))
                                 .unwrap_or(0)
                         })
                         .collect::<Vec<usize>>();
@@ -507,6 +523,7 @@ impl<'a> Searcher<'a> {
                     results.truncate(self.query.limit as usize);
                 }
 
+                let displayed = self.query.fields.len();
                 let mut first = true;
                 results.iter().for_each(|items| {
                     let mut buf = WritableBuffer::new();
@@ -515,7 +532,7 @@ impl<'a> Searcher<'a> {
                     } else {
                         let _ = self.results_writer.write_row_separator(&mut buf);
                     }
-                    let _ = self.results_writer.write_row(&mut buf, items.to_owned());
+                    let _ = self.results_writer.write_row(&mut buf, items[..displayed.min(items.len())].to_vec());
                     let _ = write!(std::io::stdout(), "{}", String::from(buf));
                 });
             } else {
